@@ -57,7 +57,7 @@ type World struct {
 	mintB    uint64
 	mintAmt  *big.Int
 	Ts       uint64
-	broken   string // which invariant was deliberately violated ("" = consistent)
+	broken   string              // which invariant was deliberately violated ("" = consistent)
 	prefer   func(*World) *draft // the builder whose validator reads the broken entry
 	forced   *uinfo              // an output record the next transfer must spend
 }
